@@ -649,7 +649,8 @@ impl<'a, 'ast> Visit<'ast> for R4Find<'a> {
                     return;
                 }
                 if closure_has_escape(args[1]) {
-                    self.err = Some("R4: closure contains return/?".into());
+                    // a closure with `return`/`?` cannot become a match arm: the call is left as it is (the unit then
+                    // needs a specification of Option::map_or and a //@closure contract; Verus decides)
                     return;
                 }
                 format!("(match {recv} {{ {some}({p}) => {b}, {none_pat} => {} }})", t(args[0]))
@@ -1118,7 +1119,7 @@ fn check_ghost_only(what: &str, s: &str) -> Result<(), String> {
     if t.is_empty() {
         return Ok(());
     }
-    let ok = ["proof {", "proof{", "assert(", "assert ", "let ghost ", "let tracked ", "broadcast use", "assume("];
+    let ok = ["proof {", "proof{", "assert(", "assert ", "let ghost ", "let tracked ", "broadcast use", "assume(", "hide("];
     if ok.iter().any(|p| t.starts_with(p)) {
         Ok(())
     } else {
@@ -1876,6 +1877,21 @@ impl<'a> Gen<'a> {
                     "trusted" => {
                         self.trusted.push(d.trim_start().strip_prefix("trusted").unwrap_or("").trim().to_string());
                     }
+                    "expanded" => self.expanded_directive(&parts)?,
+                    // `//@unless_expanded <Name>` ... `//@endunless`: template text used only while <Name> has NOT been
+                    // taken from the expansion by an earlier //@expanded (stand-in declarations of generated items)
+                    "unless_expanded" => {
+                        let name = parts.get(1).ok_or("//@unless_expanded <Name>")?;
+                        if self.emitted_fns.contains(&format!("{EXPANDED_FILE}:{name}")) {
+                            while i < lines.len() && lines[i].trim() != "//@endunless" {
+                                i += 1;
+                            }
+                            if i >= lines.len() {
+                                return Err(format!("{path}: //@unless_expanded without //@endunless"));
+                            }
+                        }
+                    }
+                    "endunless" => {}
                     other => return Err(format!("{path}:{}: unknown directive `{other}`", i + 1)),
                 }
             } else if emitting {
@@ -1893,6 +1909,7 @@ pub fn gen(opts: &HashMap<String, String>) -> Result<(), String> {
     let ctx = Ctx { cfg: &cfg, srcdir: get("src")?, sources: HashMap::new(), cnt: Counters { r: HashMap::new() }, dropped: vec![] };
     let mut g = Gen { ctx, contracts: get("contracts")?, out: String::new(), map: vec![], trusted: vec![], assumed_depth: 0, proved_elsewhere: vec![], emitted_fns: HashSet::new() };
     let tpl = get("template")?;
+    set_expanded_path(opts.get("expanded").cloned());
     g.process(&tpl, 0)?;
     std::fs::write(get("out")?, &g.out).map_err(|e| e.to_string())?;
     // map
@@ -1922,4 +1939,131 @@ pub fn gen(opts: &HashMap<String, String>) -> Result<(), String> {
     });
     std::fs::write(get("map")?, serde_json::to_string_pretty(&j).unwrap()).map_err(|e| e.to_string())?;
     Ok(())
+}
+
+// ------------------------------------------------------------------------------------------
+// R8: items that exist only as OUTPUT OF THE CRATE'S OWN DERIVE MACROS (e.g. `enum TokenTypeMacroCallOrStat` and its
+// `From`/`TryFrom` impls, generated by `sas-lexer-macro`) are taken from the real macro expansion of the same tree
+// (`cargo +nightly rustc -p sas-lexer --lib [--features macro_sep] -- -Zunpretty=expanded`, produced by the driver
+// and handed over as `vx gen --expanded <file>`), never re-typed.
+//
+//   //@expanded <ItemName> [derive=A,B,...]
+//
+// * copies the enum / struct / const / type item `<ItemName>` from the expansion (R1/R3 cleaning as for //@item);
+//   `derive=` re-attaches derives, and is accepted only for traits the expansion shows an
+//   `#[automatically_derived] impl ..::<Trait> for <ItemName>` for (the expansion holds the derive OUTPUT, the
+//   verifier needs the derive ATTRIBUTE to treat the impl structurally);
+// * registers the flattened expansion as the pseudo source file `@expanded`, so that functions of generated impl
+//   blocks are extracted, contracted and verified by the ordinary machinery:
+//       impl From<TokenTypeMacroCallOrStat> for TokenType {
+//       //@fn @expanded TokenType:From<TokenTypeMacroCallOrStat>::from props=C06
+//       ...
+//   (`//@expanded` without an item name only registers the pseudo file).
+// * `//@unless_expanded <ItemName>` ... `//@endunless` keeps template text (a stand-in declaration) only in units that
+//   have not taken <ItemName> from the expansion.
+// Counted as rewrite `R8_expanded_item` (per directive with an item name); a missing --expanded option, an
+// unparsable expansion or a missing/ambiguous item is exit 2 (UNDECIDED).
+// ------------------------------------------------------------------------------------------
+pub const EXPANDED_FILE: &str = "@expanded";
+static EXPANDED_PATH: std::sync::OnceLock<Option<String>> = std::sync::OnceLock::new();
+
+fn set_expanded_path(p: Option<String>) {
+    let _ = EXPANDED_PATH.set(p);
+}
+
+/// all items of a file, with inline modules (`mod m { .. }`) dissolved, in source order
+fn flatten_items<'x>(items: &'x [syn::Item], out: &mut Vec<&'x syn::Item>) {
+    for it in items {
+        match it {
+            syn::Item::Mod(m) => {
+                if let Some((_, inner)) = &m.content {
+                    flatten_items(inner, out);
+                }
+            }
+            other => out.push(other),
+        }
+    }
+}
+
+/// last path segment of the trait of `#[automatically_derived] impl <Trait> for <ty>` blocks
+fn auto_derived_traits(items: &[syn::Item], ty: &str) -> Vec<String> {
+    let mut out = vec![];
+    for it in items {
+        if let syn::Item::Impl(im) = it {
+            let auto = im.attrs.iter().any(|a| a.path().is_ident("automatically_derived"));
+            let self_ty = match &*im.self_ty {
+                syn::Type::Path(p) => p.path.segments.last().map(|s| s.ident.to_string()).unwrap_or_default(),
+                _ => String::new(),
+            };
+            if auto && self_ty == ty {
+                if let Some((_, p, _)) = &im.trait_ {
+                    if let Some(s) = p.segments.last() {
+                        out.push(s.ident.to_string());
+                    }
+                }
+            }
+        }
+    }
+    out
+}
+
+impl<'a> Ctx<'a> {
+    /// parse the expansion file and register its flattened items as pseudo source `@expanded`
+    fn load_expanded(&mut self) -> Result<(), String> {
+        if self.sources.contains_key(EXPANDED_FILE) {
+            return Ok(());
+        }
+        let Some(Some(p)) = EXPANDED_PATH.get().cloned() else {
+            return Err("//@expanded needs `vx gen --expanded <file>` (macro expansion of the same tree)".into());
+        };
+        let text = std::fs::read_to_string(&p).map_err(|e| format!("cannot read expansion {p}: {e}"))?;
+        let ast = syn::parse_file(&text).map_err(|e| format!("cannot parse expansion {p}: {e}"))?;
+        let mut flat = vec![];
+        flatten_items(&ast.items, &mut flat);
+        // keep only the item kinds the extractor can select (data items and impl blocks): their text is copied verbatim
+        let mut ftext = String::new();
+        for it in flat {
+            if matches!(it, syn::Item::Struct(_) | syn::Item::Enum(_) | syn::Item::Const(_) | syn::Item::Type(_) | syn::Item::Impl(_)) {
+                ftext.push_str(&text[br(it)]);
+                ftext.push_str("\n");
+            }
+        }
+        let fast = syn::parse_file(&ftext).map_err(|e| format!("cannot re-parse flattened expansion: {e}"))?;
+        self.sources.insert(EXPANDED_FILE.to_string(), Source { text: ftext, ast: fast });
+        Ok(())
+    }
+
+    /// R8: copy a named data item from the expansion
+    pub fn extract_expanded_item(&mut self, name: &str, derives: Option<String>) -> Result<Emitted, String> {
+        self.load_expanded()?;
+        let mut e = self.extract_item(EXPANDED_FILE, name, None)?;
+        if let Some(list) = derives {
+            let have = auto_derived_traits(&self.sources[EXPANDED_FILE].ast.items, name);
+            for d in list.split(',').map(str::trim).filter(|d| !d.is_empty()) {
+                if !have.iter().any(|h| h == d) {
+                    return Err(format!("//@expanded {name}: derive={d} is not justified: the expansion has no #[automatically_derived] impl {d} for {name}"));
+                }
+            }
+            e.text = format!("#[derive({list})]\n{}", e.text);
+        }
+        self.cnt.bump("R8_expanded_item");
+        Ok(e)
+    }
+}
+
+impl<'a> Gen<'a> {
+    /// `//@expanded [<ItemName> [derive=..]]`
+    fn expanded_directive(&mut self, parts: &[&str]) -> Result<(), String> {
+        self.ctx.load_expanded()?;
+        let Some(name) = parts.get(1).filter(|n| !n.contains('=')) else { return Ok(()) };
+        let der = kv(parts, "derive").map(|s| s.replace(',', ", "));
+        let e = self.ctx.extract_expanded_item(name, der)?;
+        self.emitted_fns.insert(format!("{EXPANDED_FILE}:{name}"));
+        let start = self.cur_line();
+        self.emit(&format!("// <<< R8: `{name}` taken from the macro expansion of the same tree (output of the crate's derive macro)"));
+        self.emit(&e.text);
+        let end = self.cur_line();
+        self.map.push(MapEntry { gen_start: start, gen_end: end, kind: "item", name: (*name).into(), file: EXPANDED_FILE.into(), src_line: e.src_line, props: vec![] });
+        Ok(())
+    }
 }
